@@ -30,6 +30,11 @@ CLAIMED = {
          "Reference is ion-go's own plain full traversal (the property is stated relative to it); symbol tokens compared by text then SID.",
          "deterministic simulation: seeded caller programs as the schedule, reference-cursor model, simulated Source delivery plans",
          "DESIGN.md section 3 C08"),
+ "C07": ("fault_enumeration",
+         "On every generated valid document: truncation at every byte offset (torn tail of a crashed producer) and an enumerated catalogue of stored-medium / malformed-producer corruptions at every applicable site found through the renderer's byte map; a damaged stream is judged only when byte map / edit intent and the independent reference decoder agree it is certainly invalid; it is then traversed completely under whole and byte-at-a-time simulated delivery and must end in a non-nil, permanent error.",
+         "Trusted: renderer byte maps and ref/bin, ref/text (two independent witnesses for invalidity); lenient reading of 'non-nil Err'.",
+         "deterministic simulation with fault injection: exhaustive per-document truncation and corruption catalogue on the stored medium, simulated Source delivery, independent invalidity oracle",
+         "DESIGN.md section 3 C07"),
  "C10": ("exploration",
          "Seeded histories of version markers, replacing and appending local symbol tables, imports and user values are rendered to binary and text, delivered under seeded delivery plans and read with catalogs in skewed states (exact, only newer, only older, missing; real ion.NewCatalog or a simulated repository); every observed symbol token, the binary reader's MaxID, the value count and the error expectation are compared with an executable symbol-context model.",
          "Trusted: the symbol-context model (model/symctx.go) and the independent renderers; corners the statement does not pin down are not generated.",
